@@ -16,14 +16,21 @@ Hists == ndJsonDeserialize(IOEnv.VERIF_HIST)
 Target == IOEnv.VERIF_IMPL
 VARIABLE done
 
-PostOfH(post) == {[post[i] EXCEPT !.same = Range(@)] : i \in DOMAIN post}
-ProjForH(s) == IF Orefa(Target) THEN {[e EXCEPT !.u = 0, !.g = 0] : e \in Proj(s)} ELSE Proj(s)
+\* CreateTemp/MkdirTemp names are random in the implementation and numbered in linearization order by the
+\* specification: both sides are compared with every temporary name replaced by "~" (the driver checks that
+\* the names handed out are distinct).
+TmpNames == {"~1", "~2", "~3", "~4"}
+CanonN(n) == IF n \in TmpNames THEN "~" ELSE n
+CanonP(p) == [i \in DOMAIN p |-> CanonN(p[i])]
+CanonE(e) == [e EXCEPT !.p = CanonP(@), !.same = {CanonP(x) : x \in @}]
+PostOfH(post) == {CanonE([post[i] EXCEPT !.same = Range(@)]) : i \in DOMAIN post}
+ProjForH(s) == IF Orefa(Target) THEN {CanonE([e EXCEPT !.u = 0, !.g = 0]) : e \in Proj(s)} ELSE {CanonE(e) : e \in Proj(s)}
 
 ResMatchH(op, a, b) ==
     /\ a.err = b.err
     /\ (a.err \in {"ok", "EOF"}) =>
         CASE op \in {"stat", "lstat"} -> (IF Orefa(Target) THEN [a.info EXCEPT !.u = 0, !.g = 0] ELSE a.info) = b.info
-          [] op \in {"readdir"} -> a.n = b.n /\ a.names = Range(b.names)
+          [] op \in {"readdir"} -> a.n = b.n /\ {CanonN(x) : x \in a.names} = Range(b.names)
           [] op \in {"readfile"} -> a.data = b.data
           [] op \in {"createtemp", "mkdirtemp"} -> a.n = b.n       \* the name itself is checked for freshness by the driver
           [] OTHER -> TRUE
@@ -32,28 +39,27 @@ ResMatchH(op, a, b) ==
 RECURSIVE SeedSt(_, _)
 SeedSt(s, calls) == IF calls = <<>> THEN s ELSE SeedSt(Apply(s, CleanCall(Head(calls))).st, Tail(calls))
 
-Perms(n) == {q \in [1..n -> 1..n] : \A i, j \in 1..n : i # j => q[i] # q[j]}
+\* call b must come after call a: program order of one goroutine, or a returned before b was issued
+Before(h, a, b) ==
+    \/ (h.calls[a].g = h.calls[b].g /\ h.calls[a].i < h.calls[b].i)
+    \/ <<a, b>> \in Range(h.rt)
 
-Consistent(h, q) ==
-    LET pos(k) == CHOOSE p \in DOMAIN q : q[p] = k IN
-    /\ \A a, b \in DOMAIN h.calls :
-          (h.calls[a].g = h.calls[b].g /\ h.calls[a].i < h.calls[b].i) => pos(a) < pos(b)
-    /\ \A r \in Range(h.rt) : pos(r[1]) < pos(r[2])
+\* specification states after call k with the recorded result, from the set of states `states'
+StepAll(h, states, k) ==
+    LET c == h.calls[k] IN
+    UNION {{o.st : o \in {x \in Outcomes(Target, s, CleanCall(c.call)) : ResMatchH(c.call.op, x.res, c.res)}} : s \in states}
 
-\* all specification states reachable by running the calls in order q with matching results
-RECURSIVE RunQ(_, _, _, _)
-RunQ(h, states, q, k) ==
-    IF k > Len(q) \/ states = {} THEN states
-    ELSE LET c == h.calls[q[k]]
-             nxt == UNION {{o.st : o \in {x \in Outcomes(Target, s, CleanCall(c.call)) : ResMatchH(c.call.op, x.res, c.res)}}
-                           : s \in states} IN
-         RunQ(h, nxt, q, k + 1)
+\* depth-first search over the linear extensions of Before: `placed' is the set of calls already ordered and
+\* `states' the specification states compatible with their results in that order
+RECURSIVE Search(_, _, _)
+Search(h, states, placed) ==
+    IF states = {} THEN FALSE
+    ELSE IF placed = DOMAIN h.calls THEN \E s \in states : ProjForH(s) = PostOfH(h.final)
+    ELSE \E k \in DOMAIN h.calls \ placed :
+            /\ \A a \in DOMAIN h.calls \ placed : ~Before(h, a, k)
+            /\ Search(h, StepAll(h, states, k), placed \cup {k})
 
-Lin(h) ==
-    LET s0 == SeedSt(InitSt, h.init) IN
-    \E q \in Perms(Len(h.calls)) :
-        /\ Consistent(h, q)
-        /\ \E s \in RunQ(h, {s0}, q, 1) : ProjForH(s) = PostOfH(h.final)
+Lin(h) == h.inv = "ok" /\ Search(h, {SeedSt(InitSt, h.init)}, {})
 
 NonLin == {Hists[i].id : i \in {j \in DOMAIN Hists : ~Lin(Hists[j])}}
 
